@@ -26,7 +26,8 @@ def target_platform(context, platform=None, arch=None):
 @builtin.function(context='toolchain')
 def which(context, names, resolve=False, strict=True, kind='executable'):
     try:
-        return ' '.join(shell.which(names, resolve=resolve, kind=kind))
+        return ' '.join(shell.which(names, context.env.variables,
+                                    resolve=resolve, kind=kind))
     except FileNotFoundError:
         if strict:
             raise
